@@ -11,7 +11,7 @@ RUN_MODULE = "C17.Run"
 RUN_FN = "run_case"
 HARNESS_BIN = "c17"
 HARNESS_BINS = ["c17", "c17bb", "c17sni"]
-SHRINK_KEEP = ("sni",)
+SHRINK_KEEP = ("sni", "idna")
 CLAIMED = True
 RULE = ("cases: histories of 1-14 add / remove / replace over a committed pool of 10 certificates (openssl; overlapping "
         "exact and wildcard SANs, CN-only, distinct notAfter) with operator name overrides and expiry overrides drawn "
@@ -22,7 +22,8 @@ RULE = ("cases: histories of 1-14 add / remove / replace over a committed pool o
         "removal or replacement of a loaded certificate, and >= 2 distinct probe answers; distinct by op text.")
 ASSUMPTIONS = [
     "PEM/x509/key parsing and SHA-256 are oracles: operations carry the parsed (fingerprint, names, expiration); the driver checks them against the real parser for every pool certificate",
-    "certificate names with a well-formed /regex/ segment are outside the generated family (the shared trie would treat them as regexes; C04 finding)",
+    "certificate names containing '/' are dropped at parse (fix 5453ccc) and never reach the trie: the resolver's trie only sees plain names, so the regex oracles are irrelevant for C17 (the model runs with regexes that never compile)",
+    "idna::domain_to_ascii is an oracle on names that are not plain ASCII: its answers are passed as `idna` rows and checked by the driver against the real crate; on the other names it is ASCII lower-casing (checked per name)",
     "HashMap-backed store and index are modelled as association lists with unique keys",
     "the rustls handshake (ResolvesServerCert::resolve glue, default certificate), the https.rs listener glue and the 421 call site of the strict-SNI predicate are exercised by the black-box tiers only (real worker, real handshakes, H1 and H2 requests, counting backend), not by proof",
 ]
@@ -46,7 +47,8 @@ def translate():
         (r"if old_fingerprint == new_fingerprint \{.*?return Ok\(new_fingerprint\);", "replace_certificate: idempotent short-circuit is gone"),
         (r"let new_fingerprint = self\.add_certificate\(&add\)\?;.*?Ok\(old_fingerprint\) => self\.remove_certificate\(&old_fingerprint\)\?,",
          "replace_certificate: no longer add-before-remove"),
-        (r"let overriding_names: Vec<String> = overriding_names\s*\.into_iter\(\)\s*\.map\(\|name\| name\.to_ascii_lowercase\(\)\)", "try_from: names are no longer lower-cased"),
+        (r"let overriding_names: Vec<String> = overriding_names\s*\.into_iter\(\)\s*\.filter\(\|name\| !name\.contains\('/'\)\)\s*\.map\(\|name\| \{\s*::idna::domain_to_ascii\(&name\)\.unwrap_or_else\(\|_\| name\.to_ascii_lowercase\(\)\)",
+         "try_from: names are no longer filtered on '/' and kept in their ASCII (idna) form"),
         (r"let new_cert = CertifiedKeyWrapper::try_from\(&add\)\?;", "replace_certificate: the new certificate is no longer parsed before anything is touched"),
     ]
     for pat, what in pins:
@@ -62,6 +64,13 @@ def translate():
 NAMES = [b"a.com", b"www.a.com", b"*.a.com", b"x.a.com", b"*.x.a.com", b"b.com", b"*.b.com", b"c.org", b"y.x.a.com"]
 ODD_NAMES = [b"abc/", b".com", b"", b"a.com.", b"a..com", b"*"]
 CASE_NAMES = [b"B.com", b"A.COM"]
+# names on which idna::domain_to_ascii is not plain lower-casing (answers checked by the driver against the real crate),
+# and names that are not DNS names at all
+IDNA = {"bücher.a.com".encode(): b"xn--bcher-kva.a.com", "*.bücher.a.com".encode(): b"*.xn--bcher-kva.a.com",
+        "BÜCHER.a.com".encode(): b"xn--bcher-kva.a.com", "münchen.b.com".encode(): b"xn--mnchen-3ya.b.com"}
+IDN_NAMES = list(IDNA) + [b"xn--bcher-kva.a.com", b"XN--BCHER-KVA.a.com"]
+SLASH_NAMES = [b"/x.*/.a.com", b"/.*/", b"w./[a-z]+/.a.com", b"a.com/", b"/x/"]
+IDN_SNIS = [b"xn--bcher-kva.a.com", b"w.xn--bcher-kva.a.com", b"xn--mnchen-3ya.b.com"]
 EXPS = [100, 200, 200, 300, 50, 200]
 SNIS = [b"a.com", b"www.a.com", b"x.a.com", b"q.a.com", b"y.x.a.com", b"z.x.a.com", b"b.com", b"w.b.com", b"c.org",
         b"d.org", b"localhost", b"com"]
@@ -78,7 +87,8 @@ def cert_args(rng, P, family):
     ovn = rng.random() < 0.6
     ove = rng.random() < 0.6
     if ovn:
-        src = NAMES + (ODD_NAMES if family == "odd" else []) + (CASE_NAMES if family == "case" else [])
+        src = NAMES + (ODD_NAMES + SLASH_NAMES if family == "odd" else []) + (CASE_NAMES if family == "case" else []) \
+            + (IDN_NAMES + NAMES[:3] if family == "idn" else [])
         names = [rng.choice(src) for _ in range(rng.randint(1, 3))]
     else:
         names = [n.encode() for n in c["names"]]
@@ -90,7 +100,7 @@ def history_case(rng, cid, family):
     P = pool()
     sub = rng.sample(P, rng.randint(2, 5))
     ops, loaded = [], []
-    snis = list(SNIS) + (ODD_SNIS if family == "odd" else [])
+    snis = list(SNIS) + (ODD_SNIS if family == "odd" else []) + (IDN_SNIS if family == "idn" else [])
 
     def probes(k):
         return [["sni", rng.choice(snis)] for _ in range(k)]
@@ -125,6 +135,8 @@ def history_case(rng, cid, family):
             ops += probes(rng.randint(1, 3))
     for n in snis:
         ops.append(["sni", n])
+    used = {t for op in ops if op[0] in ("add", "rep") for t in op if isinstance(t, bytes) and t in IDNA}
+    ops = [["idna", n, IDNA[n]] for n in sorted(used)] + ops
     return Case(cid, ops, dict(family=family))
 
 
@@ -153,7 +165,7 @@ def gen_cases(rng, tier):
         elif r < 7:
             out.append(history_case(rng, "o%d" % i, "odd"))
         elif r < 8:
-            out.append(history_case(rng, "c%d" % i, "case"))
+            out.append(history_case(rng, ("c%d" if i % 20 < 10 else "i%d") % i, "case" if i % 20 < 10 else "idn"))
         else:
             out.append(auth_case(rng, "a%d" % i))
     return out
@@ -188,7 +200,7 @@ def strict_sni_case(rng, cid):
 def extra_stage(tier, rng, work):
     """black-box tier: the same histories through a real worker (command channel) and real TLS handshakes"""
     n = {"quick": 60, "thorough": 1500}.get(tier, 60)
-    cases = corpus_cases() + [history_case(rng, "bb%d" % i, "plain" if i % 4 else "case") for i in range(n)]
+    cases = corpus_cases() + [history_case(rng, "bb%d" % i, ("plain", "case", "idn", "plain")[i % 4]) for i in range(n)]
     outs, problems = vlib.run_harness("c17bb", cases, os.path.join(work, "bb"), "release", shards=4, timeout=1200)
     viols, handshakes, missing = [], 0, 0
     for c in cases:
